@@ -1,6 +1,9 @@
 (* C03/Extract.v — extraction of the executable model (ExtrOcamlBasic only) *)
 Require Extraction. Require ExtrOcamlBasic.
 From NV Require Import Base.PySlice C06.Model C03.Model.
+From NV Require C02.Model C02.Tables C02.ModelF C03.ModelS.
 Extraction Language OCaml.
 Extraction "c03_model.ml" canonical_slicers ap_unscaled ap_getitem afni_getitem parrec_getitem ecat_getitem ecat_full
-  minc_getitem minc_full ap_reshape index_file file_reader dec_be enc_be zseq shape_size.
+  minc_getitem minc_full ap_reshape index_file file_reader dec_be enc_be zseq shape_size
+  C03.ModelS.get_scaled C03.ModelS.scaled_dtype C03.ModelS.afni_elem C03.ModelS.parrec_elem C03.ModelS.ecat_elem C03.ModelS.minc_elem
+  C02.Tables.all_itys.
